@@ -24,7 +24,7 @@ PLAN = {
     "thorough": {"shards": 16, "shard_timeout": 3600, "case_timeout": 40, "grammars": 6000, "max_case_timeouts": 160},
 }
 THRESHOLDS = {
-    "quick": {"crossover:ge": 100, "crossover:sge": 100, "crossover:dsge": 100, "crossover:stack": 50, "crossover:tree": 200, "mutate:ge": 100, "mutate:sge": 100, "mutate:dsge": 100, "mutate:stack": 50, "tree_concrete_start_crossovers": 20, "step_crossovers": 100, "step_mutations": 100, "child_differs_from_both": 200},
+    "quick": {"crossover:ge": 100, "crossover:sge": 100, "crossover:dsge": 100, "crossover:stack": 50, "crossover:tree": 200, "mutate:ge": 100, "mutate:sge": 100, "mutate:dsge": 100, "mutate:stack": 50, "tree_concrete_start_crossovers": 20, "step_crossovers": 100, "step_mutations": 100, "child_differs_from_both": 200, "lineages": 10, "lineage_crossovers_of_offspring": 300},
     "thorough": {"crossover:ge": 2000, "crossover:sge": 2000, "crossover:dsge": 2000, "crossover:stack": 800, "crossover:tree": 4000, "tree_concrete_start_crossovers": 300, "step_crossovers": 2000},
 }
 
@@ -46,6 +46,11 @@ def gen_cases(tier, seed):
                 # short stack genomes make the stack mapper spin (it only stops on failures); that is not C06's subject
                 "gene_length": rng.choice([1, 2, 7, 48, 64, 256, 300]) if rk != "stack" else rng.choice([64, 128, 256, 300]),
             }
+        if desc["name"] in ("fx_blocks", "fx_concrete_start", "fx_nested", "fx_layers") or (desc["name"].startswith("general") and rng.random() < 0.15):
+            # lineages: several generations of pairwise crossover, the children of one generation being the parents of
+            # the next (donor indexes built for one tree are consulted generations later)
+            for _ in range(3 if desc["name"].startswith("fx_") else 1):
+                yield {"kind": "lineage", "desc": desc, "repr": "tree", "decider": rng.choice(["maxdepth", "pigrow"]), "extra_depth": rng.choice([2, 3, 4]), "seed": rng.randrange(10**6), "gene_length": 64, "pop": rng.choice([8, 12]), "gens": rng.choice([5, 8])}
         yield {"kind": "step", "desc": desc, "repr": rng.choice(workload.REPRS), "decider": rng.choice(["maxdepth", "pigrow"]), "extra_depth": 2, "seed": rng.randrange(10**6), "gene_length": rng.choice([64, 256]), "pop": rng.choice([2, 3, 6, 9])}
 
 
@@ -192,6 +197,8 @@ def run_case(case, rec):
     try:
         if case["kind"] == "ops":
             run_ops(ctx, case, rec)
+        elif case["kind"] == "lineage":
+            run_lineage(ctx, case, rec)
         else:
             run_step(ctx, case, rec)
     finally:
@@ -230,6 +237,39 @@ def run_ops(ctx, case, rec):
     ops = workload.gen_ops(rng, case["nops"], map_after_create=True)
     sess.run_ops(ops)
     rec.sample({"grammar": case["desc"]["name"], "repr": case["repr"], "gene_length": case["gene_length"], "events": sess.n})
+
+
+def run_lineage(ctx, case, rec):
+    src = workload.native(case["seed"])
+    try:
+        rep = _rep(ctx, case, src)
+        pop = [rep.create_genotype(src) for _ in range(case["pop"])]
+    except core.CaseTimeout:
+        raise
+    except BaseException:  # noqa
+        rec.count("config_rejected")
+        return
+    rec.count("lineages")
+    for gen in range(case["gens"]):
+        nxt = []
+        for k in range(0, len(pop) - 1, 2):
+            a, b = pop[k], pop[k + 1]
+            try:
+                c1, c2 = rep.crossover(src, a, b)
+            except core.CaseTimeout:
+                raise
+            except BaseException:  # noqa
+                rec.count("op_raised")
+                nxt += [a, b]
+                continue
+            rec.count("lineage_crossovers")
+            if gen >= 1:
+                rec.count("lineage_crossovers_of_offspring")
+            judge(ctx, "tree", "crossover", [a, b], [c1, c2], rec, f"lineage:gen{min(gen, 1)}+")
+            nxt += [c1, c2]
+        pyrandom.Random(case["seed"] + gen).shuffle(nxt)
+        pop = nxt
+    rec.sample({"grammar": case["desc"]["name"], "lineage": True, "generations": case["gens"], "population": case["pop"]}, cap=2)
 
 
 class RecordingRep:
